@@ -124,3 +124,9 @@ def hint_thr(h):
     """similarity threshold read from the search hints: missing or None means 0.0"""
     t = h.get("sim_threshold", 0.0)
     return ite(is_none(t), 0.0, some(t))
+
+
+@spec
+def fused_of(f, it):
+    """f is the candidate dict `it` with an added score_fused (all original keys carried over unchanged)"""
+    return f["id"] == it["id"] and f.get("score") == it.get("score") and f.get("text") == it.get("text")
